@@ -181,8 +181,11 @@ static void run_c14t(long cases) {
         double H = settings[si].h, B = settings[si].b;
         int workers = (rep + (long)si) % 2 ? 4 : 1;
         Http::Endpoint ep(Address(Ipv4::loopback(), Port(0)));
-        ep.init(Http::Endpoint::options().threads(workers).flags(Tcp::Options::ReuseAddr).headerTimeout(std::chrono::milliseconds((long)(H * 1000))).bodyTimeout(std::chrono::milliseconds((long)(B * 1000))));
-        ep.setHandler(Http::make_handler<IdHandler>());
+        auto topts = Http::Endpoint::options().threads(workers).flags(Tcp::Options::ReuseAddr).headerTimeout(std::chrono::milliseconds((long)(H * 1000))).bodyTimeout(std::chrono::milliseconds((long)(B * 1000)));
+        // both legal orders of init() and setHandler(): the time-outs have to reach every worker either way
+        bool handlerFirst = ((rep + (long)si) / 2) % 2 == 1;
+        if (handlerFirst) { ep.setHandler(Http::make_handler<IdHandler>()); ep.init(topts); count("timeout_servers_with_the_handler_set_before_init"); }
+        else { ep.init(topts); ep.setHandler(Http::make_handler<IdHandler>()); }
         ep.serveThreaded();
         int port = ep.getPort();
         std::vector<std::thread> th;
